@@ -169,6 +169,11 @@ extern MPT_INTERFACE(metatype) *_mpt_iterator_factor(MPT_STRUCT(value) *val)
 			if (ret >= 0) {
 				++cont;
 			}
+			/* argument is present but no number */
+			else if (ret != MPT_ERROR(MissingData)) {
+				errno = EINVAL;
+				return 0;
+			}
 			/* factor not supplied */
 			if (cont < 3) {
 				if (fd.base < DBL_MIN) {
